@@ -17,16 +17,19 @@ GenView == <<vars, finished, wins>>
 
 GenInit == Init /\ hist = <<>> /\ finished = FALSE /\ wins = {}
 
-After == [layout |-> layout', table |-> table', trig |-> trig', loop |-> loop', noticed |-> noticed', rounds |-> rounds']
+After == [layout |-> layout'[1], rlayout |-> layout'[2], table |-> table'[1], rtable |-> table'[2], trig |-> trig', loop |-> loop',
+          noticed |-> noticed', rounds |-> rounds']
 Log(a, ph) == hist' = Append(hist, [a |-> a, phase |-> ph] @@ After)
 
 \* where the refresh loop is when a request notices the stale table
-Phase == IF loop = "asking" THEN (IF seen = layout THEN "asking-fresh" ELSE "asking-stale") ELSE loop
+Phase == IF loop = "asking" THEN (IF Same(seen, layout) THEN "asking-fresh" ELSE "asking-stale") ELSE loop
+\* ... and what is stale: the master assignment, or only the replica assignment ("replica moves, master stays")
+Win == IF table[1] = layout[1] THEN "replica:" \o Phase ELSE Phase
 
-Settled == table = layout /\ loop = "wait" /\ ~trig
+Settled == ~Stale /\ loop = "wait" /\ ~trig
 
 Finish ==
-  /\ ~finished /\ (Len(hist) >= MaxSteps \/ (Settled /\ layout = MaxLayout))
+  /\ ~finished /\ (Len(hist) >= MaxSteps \/ (Settled /\ layout[1] + layout[2] = MaxLayout))
   /\ PrintT("@@BEH " \o ToJson(hist))
   /\ finished' = TRUE /\ UNCHANGED <<vars, hist, wins>>
 
@@ -36,8 +39,8 @@ EnvMay == ~(loop = "wait" /\ trig)
 
 GenNext ==
   /\ ~finished /\ Len(hist) < MaxSteps
-  /\ \/ EnvMay /\ LayoutChange /\ Log("Change", "") /\ UNCHANGED wins
-     \/ EnvMay /\ Redirect /\ Log("Notice", Phase) /\ wins' = wins \cup {Phase}
+  /\ \/ \E k \in {"master", "replica"} : EnvMay /\ LayoutChange(k) /\ Log("Change", k) /\ UNCHANGED wins
+     \/ EnvMay /\ Redirect /\ Log("Notice", Phase) /\ wins' = wins \cup {Win}
      \/ LoopTake /\ loop' = "asking" /\ Log("Take", "") /\ UNCHANGED wins
      \/ LoopRefreshed /\ rounds' # rounds /\ Log("Answer", "") /\ UNCHANGED wins
      \/ LoopRefreshed /\ rounds' = rounds /\ Log("Fail", "")
